@@ -154,8 +154,26 @@ func selCallers(prop string, r *rng, id string) {
 		}
 		return joinOr(l)
 	}
-	what := r.intn(3)
+	what := r.intn(4)
 	switch what {
+	case 3:
+		// a reaping pass: what resetNodes keeps (its final shuffle makes the order irrelevant); sometimes the node has left
+		if r.chance(1, 3) {
+			ml.VerifSetRecord(m, "S", 1, ml.StateLeft)
+			ml.VerifSetStateChange(m, "S", time.Now().Add(-time.Hour))
+			s = ml.VerifSnapshotState(m)
+			parts = parts[:0]
+			for _, nd := range s.Nodes {
+				old := time.Since(nd.StateChange) > 30*time.Second
+				parts = append(parts, fmt.Sprintf("%s/%d/%d/0", nd.Name, int(nd.State), b2i(old)))
+			}
+		}
+		ml.VerifResetNodes(m)
+		var kept []string
+		for _, nd := range ml.VerifSnapshotState(m).Nodes {
+			kept = append(kept, nd.Name)
+		}
+		emit("%s resetsel id=%s nodes=%s out=%s", prop, id, strings.Join(parts, ","), joinOr(kept))
 	case 0:
 		// gossip: enough queued broadcasts for every target
 		ml.VerifResetBroadcasts(m)
